@@ -323,7 +323,7 @@ class Adapter(object):
       if k == "set":
         return rb.port_mod(p, self._hw(p), config=cfg, mask=rb.PC_PORT_DOWN, xid=x)
       if k == "badport":
-        return rb.port_mod(ABSENT, self._hw(1), config=cfg, mask=rb.PC_PORT_DOWN, xid=x)
+        return rb.port_mod(p, self._hw(1), config=cfg, mask=rb.PC_PORT_DOWN, xid=x)
       if k == "badhw":
         hw = bytearray(self._hw(p))
         hw[5] ^= 0x40
@@ -659,6 +659,8 @@ def signature(st, obs):
       sig["arg"] = "port_not_present"
     if args.get("tb") not in (None, 0, 255):
       sig["arg"] = "other_table"
+  if a == "PortMod" and args.get("kind") == "badport":
+    sig["port"] = "absent" if args.get("p") == ABSENT else "reserved"
   if a in ("PacketOut",):
     sig["act"] = {0: "none", ABSENT: "absent_port", BADACT: "unsupported"}.get(args.get("act"), "port")
   return sig
